@@ -33,14 +33,20 @@ def result(ob, func, status, kind="deciding", backend="", time_s=0.0, model=None
     return d
 
 
-def prove(ob, func, hyp, goal, kind="deciding", timeout_s=20.0, model_vars=None, text="", replay=None, case="",
+def prove(ob, func, hyp, goal, kind="deciding", timeout_s=10.0, model_vars=None, text="", replay=None, case="",
           known=None):
     """Discharge `hyp => goal`.  `known`: optional list of (finding_id, z3 condition) — a `sat` answer is
     re-solved with every known condition excluded; if that is unsat the result is tagged known=<ids>."""
     import z3
     from .solve import discharge
 
+    from . import solve as _solve
+    saved = _solve.VIOLATION_BUDGET["left"]
+    if kind in ("canary", "cover"):
+        _solve.VIOLATION_BUDGET["left"] = 1
     r = discharge(hyp, goal, timeout_s=timeout_s, model_vars=model_vars)
+    if kind in ("canary", "cover"):
+        _solve.VIOLATION_BUDGET["left"] = saved
     extra = {}
     if r["status"] == "violated" and known:
         hits = []
@@ -109,6 +115,8 @@ def _worker(args):
     t0 = time.time()
     try:
         mod = importlib.import_module(modname)
+        from . import solve as _solve
+        _solve.VIOLATION_BUDGET["left"] = 4
         res = mod.run_case(case_id, tier, seed)
         return dict(case=case_id, results=res, wall=time.time() - t0, crash=None)
     except BaseException as e:  # noqa
@@ -165,6 +173,7 @@ def run_check(modname, tier="quick", seed=0, update_ledger=False, only_case=None
     lines = []
     violations = []
     undecided = []
+    skipped = []
     known_printed = set()
 
     deciding = [r for r in results if r["kind"] in ("deciding", "auxiliary")]
@@ -190,6 +199,8 @@ def run_check(modname, tier="quick", seed=0, update_ledger=False, only_case=None
                         undecided.append((r, f"known tag {fid} not in known_findings.json"))
             elif st == "violated":
                 violations.append(r)
+            elif st == "skipped":
+                skipped.append(r)
             else:
                 undecided.append((r, "solver returned unknown / unsupported"))
 
@@ -203,6 +214,9 @@ def run_check(modname, tier="quick", seed=0, update_ledger=False, only_case=None
                                    model=bv.get("input"), text=bv.get("text", ""), replay=bv.get("replay"),
                                    native=dict(reproduced=True, detail=bv.get("detail", "")), backend="native",
                                    time_s=0.0, case=bv.get("case", "")))
+
+    if skipped and not violations:
+        undecided.extend((r, "skipped after the violation budget was used up, but no violation was kept") for r in skipped[:5])
 
     # ledger guard
     ledger_path = os.path.join(ROOT, "contracts", "ledger.json")
